@@ -93,7 +93,7 @@ func stripDir(v any, dir string) any {
 		}
 	case map[string]any:
 		if f, ok := x["filename"].(string); ok {
-			x["filename"] = strings.TrimPrefix(f, dir+"/")
+			x["filename"] = strings.TrimPrefix(filepath.Clean(f), dir+"/") // an absolute pattern yields //dir/name: the same file
 		}
 	}
 	return v
@@ -102,7 +102,7 @@ func stripDir(v any, dir string) any {
 func C18(r *drv.Run) {
 	r.BuildWorker()
 	r.BuildCLI()
-	r.Rule = "the built vore binary in scratch directories over the cross product {-com, -src} x 5 file sets (one file, several by glob, none matching, a glob with the star in the middle of a name, a glob into a sub-directory) x {none, -json, -formatted-json} x {-json-file} x {-formatted-json-file} x {default, NEW, NOTHING, OVERWRITE} x {-no-output} x {find, replace, two statements, failing program} (thorough: all 3 840; quick: a seed-selected 400) plus 14 invalid invocations; two thirds of the invocations with their flag groups in a seed-chosen order and spelling (-flag value, --flag value, -flag=value). Oracle: exit status; stdout under -json/-formatted-json is exactly one JSON document equal (after decoding) to the library's result for the same program and files, computed by a worker through RunFiles; the named JSON files likewise; replace mode honoured with NEW as default and outputs equal to the splice (directory snapshot before/after); invalid invocations, unknown modes and compile errors exit non-zero with a message and an empty snapshot diff. Non-trivial = invocation with >= 1 match whose JSON/stdout/file effects were all verified; distinct by configuration."
+	r.Rule = "the built vore binary in scratch directories over the cross product {-com, -src} x 5 file sets (one file, several by glob, none matching, a glob with the star in the middle of a name, a glob into a sub-directory) x {none, -json, -formatted-json} x {-json-file} x {-formatted-json-file} x {default, NEW, NOTHING, OVERWRITE} x {-no-output} x {find, replace, two statements, failing program} (thorough: all 3 840; quick: a seed-selected 400) plus 14 invalid invocations; a quarter of the invocations with the -files pattern made absolute, two thirds with their flag groups in a seed-chosen order and spelling (-flag value, --flag value, -flag=value). Oracle: exit status; stdout under -json/-formatted-json is exactly one JSON document equal (after decoding) to the library's result for the same program and files, computed by a worker through RunFiles; the named JSON files likewise; replace mode honoured with NEW as default and outputs equal to the splice (directory snapshot before/after); invalid invocations, unknown modes and compile errors exit non-zero with a message and an empty snapshot diff. Non-trivial = invocation with >= 1 match whose JSON/stdout/file effects were all verified; distinct by configuration."
 	r.Assumptions = []string{
 		"with -no-output only exit status and file effects of the replace mode are demanded (the documentation does not say whether JSON files are still written)",
 		"zero matches / no files: exit 0 and no JSON demanded (the property's 'when there is at least one match')",
@@ -245,7 +245,12 @@ func c18Run(r *drv.Run, i int, cfg c18Config, lib []wire.Match, libStr [][]wire.
 	} else {
 		args = append(args, "-com", prog.src)
 	}
-	args = append(args, "-files", fs.glob)
+	glob := fs.glob
+	if i%4 == 3 {
+		glob = dir + "/" + glob // the same selection spelled as an absolute pattern
+		r.Count("invocations_with_absolute_files_pattern", 1)
+	}
+	args = append(args, "-files", glob)
 	if cfg.out != "" {
 		args = append(args, "-"+cfg.out)
 	}
